@@ -273,12 +273,12 @@ func Deser(t reflect.Type, toks []string) (reflect.Value, []string, error) {
 type Profile int
 
 const (
-	ProfFull   Profile = iota // every pointer set, every collection populated
-	ProfNil                   // every pointer nil, every collection nil
-	ProfEmpty                 // pointers set, collections empty (non-nil)
-	ProfRandom                // mixture, nil elements included
-	ProfSparse                // mostly nil/empty with a few populated parts
-	ProfEmptyNoPtr            // pointers nil, collections empty (non-nil)
+	ProfFull       Profile = iota // every pointer set, every collection populated
+	ProfNil                       // every pointer nil, every collection nil
+	ProfEmpty                     // pointers set, collections empty (non-nil)
+	ProfRandom                    // mixture, nil elements included
+	ProfSparse                    // mostly nil/empty with a few populated parts
+	ProfEmptyNoPtr                // pointers nil, collections empty (non-nil)
 )
 
 // Gen generates type-directed values. Scalars come from a running counter so that distinct
